@@ -81,6 +81,47 @@ WEIGHTS = {
 }
 
 
+# self-test of the specification (thorough tier): with a bug knob at FALSE the named invariant must be violated
+# (non-vacuity of the invariant), and the counterexample, replayed on the current code, must NOT reproduce
+# (regression guard for the repair).  (knob, configuration, invariants one of which must fail)
+KNOBS = {
+    "C04": [("FixRebase", ([1, 2], 2, 6, 2, ["add", "compactall", "reload"], False), ["C04_NoLostNoPhantom", "C04_OneAtATime", "C09_StaleNeverCommits"])],
+    "C05": [("FixRebase", ([1, 2], 2, 6, 3, ["add", "compactrange"], False), ["C05_ListIntegrity", "C04_NoLostNoPhantom", "C04_OneAtATime", "C09_StaleNeverCommits", "C05_NoGc"])],
+    "C06": [("FixRebase", ([1, 2], 2, 6, 2, ["add", "compactall"], True), ["C04_NoLostNoPhantom", "C04_OneAtATime", "C09_StaleNeverCommits"])],
+    "C08": [("FixRelockOwner", ([1, 2, 3], 1, 5, 2, ["add", "compactall"], False), ["C08_LockMutex", "C08_OwnerOnly"])],
+    "C09": [("FixRebase", ([1, 2], 2, 6, 2, ["add", "compactall", "reload"], False), ["C09_StaleNeverCommits", "C04_NoLostNoPhantom", "C04_OneAtATime"])],
+    "C10": [("FixReuseClose", ([1, 2], 3, 4, 1, ["add", "compactrange", "reload"], False), ["C10_Snapshot"])],
+    "C16": [("FixTmpCleanup", ([1, 2], 2, 6, 2, ["add", "compactall"], False), ["C16_IdleOwnsNothing", "C16_QuiescentDir"]),
+            ("FixCleanEnoent", ([1, 2], 2, 6, 2, ["add", "empty", "compactall", "clean"], False), ["C16_GcSucceeds", "C04_OnlyLockFailures"])],
+}
+
+
+def knob_selftests(pid, sc, drv):
+    res = []
+    for knob, cfg, expect in KNOBS.get(pid, []):
+        hs, mo, mi, n, ops, crash = cfg
+        sd = os.path.join(sc, "knob-" + knob)
+        shutil.copytree(os.path.join(C.VERIF, "spec"), sd)
+        with open(os.path.join(sd, "k.cfg"), "w") as f:
+            f.write(P.proto_cfg(hs, mo, mi, n, ops, crash, knobs={knob: False}))
+        r = C.tlc(sd, "StackProto", "k.cfg", sc, workers=8, timeout=900, heap="12g")
+        shutil.rmtree(sd, ignore_errors=True)
+        inv, _ = C.tlc_violations(r["out"])
+        entry = dict(knob=knob, expected_one_of=expect, violated=inv[:1], bites=bool(inv) and inv[0] in expect, states=r["distinct"])
+        if inv and "The behavior up to this point is:" in r["out"]:
+            acts = P.acts_of_text(r["out"].split("The behavior up to this point is:")[1])
+            cr = P.run_of_acts(acts, "knob-" + knob, n, nh=len(hs))
+            co = P.run_driver(drv, [cr], sc)
+            cv, _, _ = P.validate(co, sc, jvms=1)
+            mine = [v for v in cv if v[0] in P.PROP_INVS[pid]]
+            entry["reproduces_on_current_code"] = bool(mine)
+            entry["counterexample_steps"] = len(acts)
+            if mine:
+                entry["replay"] = C.save_replay(pid, "knob-%s" % knob, {"property": pid, "invariant": mine[0][0], "run": cr})
+        res.append(entry)
+    return res
+
+
 def signature(inv, trace, line):
     ev = trace["events"][line - 1] if 0 < line <= len(trace["events"]) else {}
     return "%s@%s:%s" % (inv, ev.get("op", ev.get("ev", "?")), ev.get("pk", ev.get("res", "")))
@@ -238,6 +279,14 @@ def run(pid, tier):
         if rej and nviol == 0:
             raise C.Inconclusive("traces rejected by TraceStackFS (recorder/filesystem-model mismatch): %s" % rej[:3])
 
+        selftests = knob_selftests(pid, sc, drv) if tier == "thorough" else []
+        for st in selftests:
+            if st.get("reproduces_on_current_code"):
+                # a repaired defect is back: the behaviour TLC found for the specification mutant IS a behaviour of the code
+                print("VIOLATION property=%s replay=%s" % (pid, st["replay"]))
+                print("  the counterexample of specification mutant %s=FALSE reproduces on the code" % st["knob"])
+                nviol += 1
+
         # ---- evidence
         actcount = collections.Counter()
         for w in walks:
@@ -265,7 +314,7 @@ def run(pid, tier):
             crash_points_total=crash_total, crash_enumeration_complete=crash_complete,
             events_validated=vstats["events"], trace_states=vstats["states"],
             model_actions_replayed=dict(actcount),
-            invariants=P.PROP_INVS[pid], other_invariant_violations=len(others),
+            invariants=P.PROP_INVS[pid], other_invariant_violations=len(others), specification_mutants=selftests,
             known_findings_seen=sorted(seen_known),
         )
         C.write_evidence(pid, tier, LEVEL, cov, time.time() - t0, nviol,
